@@ -11,7 +11,7 @@ PLAN = {
     "C16": {"what": ["codec", "blob"], "mc": ("MCCodec", {"quick": {"Alpha": "{0, 1, 255}", "MaxLen": 4, "KeyAlpha": "{0, 255}", "MaxKeyLen": 1},
                                                          "thorough": {"Alpha": "{0, 1, 2, 255}", "MaxLen": 6, "KeyAlpha": "{0, 1, 255}", "MaxKeyLen": 2}},
             ["Inv_C16_Total", "Inv_C16_RoundTrip", "Inv_C16_Prefix", "Inv_C16_SnapRoundTrip"])},
-    "C17": {"what": ["range"], "mc": ("MCRange", {"quick": {"Lens": "{0, 1, 2, 3, 4, 5, 6, 40}"}, "thorough": {"Lens": "0..48"}}, ["Inv_C17"])},
+    "C17": {"what": ["range"], "mc": ("MCRange", {"quick": {"Lens": "{0, 1, 2, 3, 4, 5, 6, 40}"}, "thorough": {"Lens": "{" + ", ".join(str(i) for i in range(0, 49)) + "}"}}, ["Inv_C17"])},
     "C18": {"what": ["blob"], "mc": ("MCBlob", {"quick": {"MaxAtoms": 4, "Cap": 2, "NibAlpha": "{0, 9, 10, 15}", "HLen": 6},
                                                "thorough": {"MaxAtoms": 6, "Cap": 2, "NibAlpha": "{0, 9, 10, 15}", "HLen": 7}},
             ["Inv_C18_Identity", "Inv_C18_NoReorder", "Inv_C18_PathBijection"])},
